@@ -1364,6 +1364,12 @@ class Interp:
         if isinstance(e.func, ast.Name) and e.func.id == 'super' and not e.args:
             slf = frame.vars.get('self')
             return _SuperProxy(frame.defining_class, slf)
+        if isinstance(e.func, ast.Name) and e.func.id == 'super' and len(e.args) == 2 and not e.keywords:
+            # the explicit form super(Class, self)
+            cls_ = self.eval(e.args[0], frame)
+            obj_ = self.eval(e.args[1], frame)
+            if isinstance(cls_, type):
+                return _SuperProxy(cls_, obj_)
         fn = self.eval(e.func, frame)
         args = []
         for a in e.args:
